@@ -20,6 +20,15 @@ OBLIGATIONS = [NS + t for t in [
     "accepted_reads_back", "read_is_pure", "mismatched_read_throws", "mismatched_assign_throws",
     "unknown_name_throws", "duplicate_register_throws", "register_then_found", "config_preserves_domain",
     "defaults_in_domain", "defaults_constructible", "type_ids_match",
+    # gap-closing round
+    "rejected_is_noop_enum", "enum_out_of_domain_rejected", "rejected_is_noop_integer", "rejected_is_noop_scalar",
+    "rejected_is_noop_integer_pair", "rejected_is_noop_scalar_pair", "rejected_is_noop_string", "enum_history_in_domain",
+    "xstep_lowers", "xstep_preserves_domain", "xrejected_is_noop", "xconstruct_in_domain", "xreachable_in_domain",
+    "readI32_exact", "readI32_exact_of_domain", "readU64_exact", "narrow_read_mismatch_throws",
+    "fitsRead_i32_sound", "fitsRead_u64_sound", "reads_kinds_checked", "reads_fit_table", "library_reads_well_typed",
+    "param_eq_self", "clone_configuration_equal", "clone_independent", "lookup_exact_name",
+    "factory_add_spec", "factory_get_unknown", "factory_wf_preserved", "factory_get_is_clone", "factory_ids_spec",
+    "factory_prototypes_untouched", "got_objects_independent",
 ]]
 TRUSTED = [
     "Lean 4.33.0 kernel (core library only for this property; no Mathlib import)",
@@ -29,7 +38,10 @@ TRUSTED = [
     "harness/c19.cpp `factory dump` + the translation of its output into Gen/FactoryParams.lean (regenerated on every run)",
     "hand-written model NanoVerif/Model/Parameter.lean (dispatch of operator=/value<T>() on the stored alternative), "
     "ParamParse.lean (std::stoll/std::stod/split_pair), ParamFloat.lean (exact doubles, int64<->double casts as x86-64 does them), "
-    "Configurable.lean; tied to the code by the correspondence run (exact comparison of every answer and every state)",
+    "ParamNarrow.lean (the other arithmetic overloads, narrowing reads, converting constructors, operator==), Configurable.lean, "
+    "Factory.lean (factory_t); tied to the code by the correspondence run (exact comparison of every answer and every state)",
+    "tools/props/_c19_translate.py scan_reads (typed reads -> Gen/ParamReads.lean) and clone_report (class / member / clone() / copy "
+    "operation scanner behind static_checks) with the reviewed allow-lists ALLOW_CLONE / ALLOW_COPY / ALLOW_MISSING / ALLOW_SHARED",
     "tools/props/c19.py generator + reference semantics; harness/c19.cpp; g++/libstdc++/glibc strtod",
 ]
 ASSUMPTIONS = [
@@ -39,7 +51,16 @@ ASSUMPTIONS = [
     "the domain theorems hold for any conversion function, the reference semantics accepts either outcome",
     "the order in which g++ evaluates the two std::stoll/std::stod arguments of one call (right to left) only decides which "
     "exception is reported when both tokens of a pair are malformed",
-    "'the clone behaves identically' is observed on one probe input per loss/function/splitter/deterministic solver only",
+    "'the clone behaves identically' is observed on fixed probe inputs only: loss, function, splitter, deterministic solver, lsearch0 "
+    "(incl. clone of a used object), lsearchk (a fixed state, twice), tuner (tiny grid, fixed callback), weak learner (fit on a fixed "
+    "80-sample dataset, predictions bit by bit, clone AFTER the fit), generator (fit + feature list); data sources are not loaded",
+    "static_cast<int32_t>(double) / static_cast<float>(double) outside the target range are undefined in C++; the model follows "
+    "x86-64 (cvttsd2si r32 -> -2^31, cvtsd2ss -> inf), the reference semantics accepts either outcome; value<uint64_t>() of a SCALAR "
+    "parameter is not exercised (the library never does it: Gen/ParamReads.lean)",
+    "std::regex is exercised with five pattern shapes over [a-z0-9-] fragments (.+, literal, prefix.*, .*suffix, .*infix.*)",
+    "the typed reads of the library are found syntactically (`parameter(<expr ending in a string literal>).value<T>()`); a read the "
+    "scanner cannot resolve fails the static check; 27 reads belong to objects no factory hands out (program solver, penalty / "
+    "augmented-Lagrangian solvers, the linear data source) and are not in the table",
     "enumeration parameters are exercised through one enumeration declared in the harness (4 names, one with a blank)",
 ]
 RULE = ("per kind x <=/< combination (4 integer, 4 scalar, 8 integer-pair, 8 scalar-pair specs, + enum, string, empty): every history "
@@ -48,7 +69,13 @@ RULE = ("per kind x <=/< combination (4 integer, 4 scalar, 8 integer-pair, 8 sca
         "history of <= 4 (quick) / <= 6 (thorough) operations over a core alphabet (each is a prefix of a generated line), random "
         "longer histories incl. extreme/empty/infinite/NaN domains; configurable_t histories (register/duplicate/lookup/config); every "
         "id of the 11 factories walked (type_id, defaults, clone equal, clone and second get() independent under modification, "
-        "probe); a history is non-trivial when it contains an accepted and a rejected assignment; distinct by op text")
+        "probe); a history is non-trivial when it contains an accepted and a rejected assignment; distinct by op text. Gap-closing "
+        "round: `paramx` (domains exceeding int / float, make_* with mixed argument types, every arithmetic overload of operator=, "
+        "narrowing reads, operator==), `config` names closed under prefixes / one-character extensions + copies, `fact` (a factory of "
+        "our own: duplicate / unknown / prefix ids, ids(regex), descriptions, got objects modified and cloned, get() again), "
+        "`factory idsre` on the 11 factories, `paramshow` (oracle-only monitor of operator<<), owner histories with near-miss enum "
+        "names and unknown parameter names that are prefixes / extensions of registered ones, probe histories for lsearchk / tuner / "
+        "weak learners (clone of a fitted learner)")
 FLAVOUR = {"quick": "plain", "thorough": "asan"}
 EXHAUSTIVE = {"quick": False, "thorough": False}
 HARNESS_TIMEOUT = 1500
@@ -93,9 +120,91 @@ def translate():
         vlib.write_if_changed(os.path.join(gen_dir, "FactoryParams.lean"), T.factoryparams_text(_ENTRIES))
     except Broken as b:
         errors.append(b)
+    try:
+        vlib.write_if_changed(os.path.join(gen_dir, "ParamReads.lean"), T.paramreads_text(vlib.REPO, _ENTRIES))
+    except Broken as b:
+        errors.append(b)
     if errors:
         raise Broken("; ".join(e.what for e in errors), "\n".join(f"{e.what}: {e.detail or e}" for e in errors))
 
+
+
+# ---------------------------------------------------------------------------------------------------------
+# static checks (every run): typed reads resolved; clonability of every class that implements clone()
+#
+# The scanner (tools/props/_c19_translate.py: clone_report) lists every class of include/ and src/ with its data members,
+# its clone() body and its user-declared copy operations. The canonical form is
+#       clone() { return std::make_unique<T>(*this); }      +      implicit / defaulted copy operations,
+# for which "the clone has every member of its source" holds by the language. Everything else is listed here, reviewed by
+# hand; a NEW non-canonical clone(), a NEW user-provided copy operation, a member a reviewed copy operation does not mention,
+# or a NEW member through which a clone and its source share an object breaks the check with the class name.
+
+# clone() bodies that are not `return std::make_unique<T>(*this);` — reviewed: (none on the unchanged tree)
+ALLOW_CLONE = {
+}
+
+# user-provided copy constructors / copy assignments — reviewed: every one copies (clones) every data member and the bases
+ALLOW_COPY = {
+    "solver_t": "src/solver.cpp:49-57: bases copied, m_lsearch0 / m_lsearchk = clone() of the owned objects (unique_ptr), m_type copied",
+    "params_t": "src/machine/params.cpp:21-41: m_logger copied, m_tuner / m_solver / m_splitter = clone() (unique_ptr); the same in operator=",
+    "gboost_model_t": "src/gboost/model.cpp:233-251: learner_t(other) / learner_t::operator=, m_bias copied, m_wlearners / m_prototypes = wlearner::clone",
+    "result_t": "src/gboost/result.cpp:22-44: non-owning pointers and tensors copied, m_wlearners = wlearner::clone",
+    "functional_t": "src/function/constraint.cpp:244-256: m_function = clone() (unique_ptr)",
+    "logger_t": "src/logger.cpp:115-129: a new impl_t on the same stream / path (pimpl in a unique_ptr)",
+    "tensor_t": "include/nano/tensor/tensor.h: converting copy operations between storage kinds (C16's subject), the same-type copy is defaulted",
+    "tensor_marray_storage_t": "include/nano/tensor/storage.h:228: assignment THROUGH a mapped array copies the elements, not the pointer (C16's subject)",
+}
+
+# members a reviewed copy operation does not mention, on purpose
+ALLOW_MISSING = {
+    ("tensor_marray_storage_t", "copy_assign: m_data"): "the mapped pointer stays, the elements are copied by copy(other)",
+}
+
+# members of classes copied along with a clonable object through which the copy and its source share an object (references,
+# raw pointers, shared_ptr) — reviewed: all are non-owning references to objects that outlive both (datasets, iterators,
+# losses, the wrapped function, the solver's current vectors), none is configuration
+ALLOW_SHARED = {
+    "augmented_lagrangian_function_t": ["m_lambda", "m_miu"],
+    "base_dataset_iterator_t": ["m_dataset"],
+    "bias_function_t": ["m_iterator", "m_loss"],
+    "dataset_t": ["m_datasource"],
+    "function_t": ["m_iterator", "m_loss"],
+    "grads_function_t": ["m_iterator", "m_loss"],
+    "interval_t": ["state0", "descent", "c"],
+    "penalty_function_t": ["m_function"],
+    "quadratic_surrogate_fit_t": ["m_loss"],
+    "scale_function_t": ["m_iterator", "m_loss", "m_cluster", "m_soutputs", "m_woutputs"],
+    "solver_pdsgm_t": ["m_x0"],
+    "solver_state_t": ["m_function"],
+}
+
+
+def static_checks():
+    out = []
+    uses, unresolved = T.scan_reads(vlib.REPO)
+    for u in unresolved:
+        out.append(f"typed read of a parameter that the scanner cannot resolve to a parameter name: {u}")
+    if len(uses) < 100:
+        out.append(f"the scanner found only {len(uses)} typed reads of parameters (190 on the reviewed tree)")
+    rep = T.clone_report(vlib.REPO)
+    if len(rep["clonable"]) < 100:
+        out.append(f"the scanner found only {len(rep['clonable'])} classes implementing clone() (105 on the reviewed tree)")
+    out += rep["problems"]
+    for cls, body in sorted(rep["noncanonical_clone"].items()):
+        if cls not in ALLOW_CLONE:
+            out.append(f"non-canonical clone(): {cls}::clone() is not `return std::make_unique<{cls}>(*this);` but `{body}`")
+    for cls, whats in sorted(rep["user_copy"].items()):
+        if cls not in ALLOW_COPY:
+            out.append(f"user-provided copy operation not reviewed: {cls} ({', '.join(whats)})")
+    for cls, lost in sorted(rep["missing"].items()):
+        for m in lost:
+            if (cls, m) not in ALLOW_MISSING:
+                out.append(f"copy operation of {cls} does not copy: {m}")
+    for cls, members in sorted(rep["suspicious"].items()):
+        for ty, m in members:
+            if m not in ALLOW_SHARED.get(cls, []):
+                out.append(f"{cls}::{m} (`{ty}`) is shared between a copy and its source and is not reviewed")
+    return out
 
 # ---------------------------------------------------------------------------------------------------------
 # wire format
@@ -120,6 +229,8 @@ class Spec:
 
     def wire(self):
         k = self.kind
+        if getattr(self, "xwire", None):
+            return self.xwire
         if k == "mono":
             return "mono"
         if k == "enum":
@@ -138,6 +249,7 @@ class Spec:
     def state(self):
         """the state a successfully constructed parameter starts in"""
         d = dict(self.__dict__)
+        d.pop("xwire", None)
         if self.kind == "enum":
             d["domain"] = list(ENUM_NAMES)
         return d
@@ -165,21 +277,52 @@ def read_spec(t):
     if k == "fpair":
         mn = t.f(); mc = t.s(); v1 = t.f(); vc = t.s(); v2 = t.f(); xc = t.s(); mx = t.f()
         return Spec(k, min=mn, mincomp=mc, value1=v1, valcomp=vc, value2=v2, maxcomp=xc, max=mx)
+    if k in ("xint", "xfloat", "xipair", "xfpair"):
+        start = t.i - 1
+        def num():
+            tag = t.s()
+            return t.int() if tag == "i" else t.f()
+        isint = k in ("xint", "xipair")
+        def conv(v):
+            # static_cast to the parameter's kind BEFORE the parameter is constructed (parameter.h:312-331)
+            if isint:
+                if isinstance(v, int):
+                    return v
+                c = float_to_int(v)
+                if c is UNDEF:
+                    raise ValueError("undefined conversion in a generated spec")
+                return c
+            return float(v)
+        if k in ("xint", "xfloat"):
+            mn = num(); mc = t.s(); v = num(); xc = t.s(); mx = num()
+            sp = Spec("int" if isint else "float", min=conv(mn), mincomp=mc, value=conv(v), maxcomp=xc, max=conv(mx))
+        else:
+            mn = num(); mc = t.s(); v1 = num(); vc = t.s(); v2 = num(); xc = t.s(); mx = num()
+            sp = Spec("ipair" if isint else "fpair", min=conv(mn), mincomp=mc, value1=conv(v1), valcomp=vc, value2=conv(v2),
+                      maxcomp=xc, max=conv(mx))
+        sp.xwire = " ".join(t.t[start:t.i])
+        return sp
     raise ValueError("spec kind " + k)
 
 
 OP_ARITY = {"si": 1, "sf": 1, "spi": 2, "sp32": 2, "spf": 2, "ss": 1, "se": 1,
-            "ri": 0, "rf": 0, "rpi": 0, "rpf": 0, "rs": 0, "re": 0, "wr": 0}
-ASSIGN = ("si", "sf", "spi", "sp32", "spf", "ss", "se")
+            "ri": 0, "rf": 0, "rpi": 0, "rpf": 0, "rs": 0, "re": 0, "wr": 0,
+            "si32": 1, "su64": 1, "sb": 1, "sf32": 1, "ri32": 0, "ru64": 0, "rf32": 0, "rpi32": 0, "rpf32": 0}
+ASSIGN = ("si", "sf", "spi", "sp32", "spf", "ss", "se", "si32", "su64", "sb", "sf32")
 
 
 def read_op(t):
     """-> (kind, decoded args, wire tokens)"""
     k = t.s()
+    if k == "eq":
+        start = t.i
+        same = t.int()
+        other = read_spec(t)
+        return k, [same, other], [k] + t.t[start:t.i]
     raw = [t.s() for _ in range(OP_ARITY[k])]
-    if k in ("si",):
+    if k in ("si", "si32", "su64", "sb"):
         args = [int(raw[0])]
-    elif k == "sf":
+    elif k in ("sf", "sf32"):
         args = [h2f(raw[0])]
     elif k in ("spi", "sp32"):
         args = [int(raw[0]), int(raw[1])]
@@ -326,6 +469,12 @@ def assigned(st, op, args):
         if isint:
             return v if src == "i" else float_to_int(v)
         return float(v) if src == "i" else v
+    if op in ("si32", "sb"):
+        op = "si"                                  # integral types go through static_cast<int64_t>
+    if op == "su64":
+        op, args = "si", [args[0] - 2 ** 64 if args[0] >= 2 ** 63 else args[0]]
+    if op == "sf32":
+        op = "sf"                                  # float widens exactly
     if op == "si" or op == "sf":
         if k not in ("int", "float"):
             return REJECT
@@ -396,7 +545,90 @@ def ref_step(st, op, args):
         return st, (("ok", [st["value"]]) if k == "enum" else ("throw",))
     if op == "wr":
         return st, ("ok", [1, 1])
+    # narrowing reads: static_cast<T>(stored value); integer -> integer is modular, the rest is exact when it fits
+    if op == "ri32":
+        if k == "int":
+            return st, ("ok", [wrap32(st["value"])])
+        if k == "float":
+            return st, narrow_f_i32([st["value"]])
+        return st, ("throw",)
+    if op == "ru64":
+        if k == "int":
+            return st, ("ok", [st["value"] % 2 ** 64])
+        if k == "float":
+            return st, ("na",)
+        return st, ("throw",)
+    if op == "rf32":
+        if k == "int":
+            return st, ("ok", [int_to_f32(st["value"])])
+        if k == "float":
+            return st, narrow_f_f32([st["value"]])
+        return st, ("throw",)
+    if op == "rpi32":
+        if k == "ipair":
+            return st, ("ok", [wrap32(st["value1"]), wrap32(st["value2"])])
+        if k == "fpair":
+            return st, narrow_f_i32([st["value1"], st["value2"]])
+        return st, ("throw",)
+    if op == "rpf32":
+        if k == "ipair":
+            return st, ("ok", [int_to_f32(st["value1"]), int_to_f32(st["value2"])])
+        if k == "fpair":
+            return st, narrow_f_f32([st["value1"], st["value2"]])
+        return st, ("throw",)
+    if op == "eq":
+        same, other = args
+        o = other.state()
+        if not in_domain(o):
+            return st, ("noother",)
+        return st, ("ok", [1 if (same == 1 and equal_params(st, o)) else 0])
     raise ValueError(op)
+
+
+def wrap32(v):
+    r = v % 2 ** 32
+    return r - 2 ** 32 if r >= 2 ** 31 else r
+
+
+def int_to_f32(n):
+    """static_cast<float>(int64_t): ONE rounding to 24 significant bits (ties to even)"""
+    if n == 0:
+        return 0.0
+    neg, a = n < 0, abs(n)
+    bits = a.bit_length()
+    if bits > 24:
+        sh = bits - 24
+        q, rem, half = a >> sh, a & ((1 << sh) - 1), 1 << (sh - 1)
+        if rem > half or (rem == half and (q & 1)):
+            q += 1
+        a = q << sh
+    return -float(a) if neg else float(a)
+
+
+def narrow_f_i32(vals):
+    out = []
+    for v in vals:
+        if v != v or v in (INF, -INF) or not (-2 ** 31 <= math.trunc(v) < 2 ** 31):
+            return ("any",)                         # undefined in C++
+        out.append(math.trunc(v))
+    return ("ok", out)
+
+
+def narrow_f_f32(vals):
+    out = []
+    for v in vals:
+        try:
+            out.append(struct.unpack("f", struct.pack("f", v))[0])
+        except OverflowError:
+            return ("any",)                         # outside the range of float: undefined in C++
+    return ("ok", out)
+
+
+def equal_params(a, b):
+    """operator==: the same alternative, values and bounds compared with ==, the same comparators"""
+    if a["kind"] != b["kind"]:
+        return False
+    return all(k in b and a[k] == b[k] for k in a) and set(a) == set(b)
 
 
 def same_state(a, b):
@@ -416,13 +648,13 @@ def same_domain(a, b):
 
 def read_answer(t, op, k):
     """the values an `ok` answer carries, as python values"""
-    if op in ("ri",):
+    if op in ("ri", "ri32", "ru64", "eq"):
         return [t.int()]
-    if op == "rf":
+    if op in ("rf", "rf32"):
         return [t.f()]
-    if op == "rpi":
+    if op in ("rpi", "rpi32"):
         return [t.int(), t.int()]
-    if op == "rpf":
+    if op in ("rpf", "rpf32"):
         return [t.f(), t.f()]
     if op in ("rs", "re"):
         return [unq(t.s())]
@@ -436,9 +668,13 @@ def check_answer(t, op, expect):
     w = t.s()
     if w == "throw":
         t.s()
-        if expect[0] == "ok":
+        if expect[0] in ("ok", "na", "noother"):
             return True, f"[spurious-throw] `{op}` threw although the property requires it to succeed"
         return True, None
+    if w in ("na", "noother"):
+        return False, (None if expect[0] == w else f"[answer] `{op}` answered {w}")
+    if expect[0] in ("na", "noother"):
+        return False, f"[answer] `{op}` answered {w} where {expect[0]} is expected"
     if w != "ok":
         return False, f"[answer] unreadable answer `{w}`"
     got = read_answer(t, op, None)
@@ -499,6 +735,64 @@ def oracle_param(t, r):
     return None if r.done() else "[answer] trailing tokens"
 
 
+def fmt_g(v):
+    """what `std::ostream << v` prints with the default flags: `%g` for doubles, decimal for integers"""
+    if isinstance(v, int):
+        return str(v)
+    return "%g" % v
+
+
+def shown_of(st, name="p"):
+    """(value, domain, whole parameter) as src/parameter.cpp:202-247, 436-465 prints them"""
+    k = st["kind"]
+    cn = lambda c: "<=" if c == "le" else "<"
+    if k == "mono":
+        v, d = "N/A", "N/A"
+        name = ""
+    elif k == "enum":
+        v, d = st["value"], ",".join(st["domain"])
+    elif k == "str":
+        v, d = st["value"], ".*"
+    elif k in ("int", "float"):
+        v = fmt_g(st["value"])
+        d = f"{fmt_g(st['min'])} {cn(st['mincomp'])} {v} {cn(st['maxcomp'])} {fmt_g(st['max'])}"
+    else:
+        v1, v2 = fmt_g(st["value1"]), fmt_g(st["value2"])
+        v = f"({v1},{v2})"
+        d = f"{fmt_g(st['min'])} {cn(st['mincomp'])} {v1} {cn(st['valcomp'])} {v2} {cn(st['maxcomp'])} {fmt_g(st['max'])}"
+    return v, d, f"{name}={v}|domain=[{d}]"
+
+
+def oracle_paramshow(t, r):
+    """run-time monitor of value() / domain() / operator<< (outside the Lean model): after every operation the printed texts
+    are those of the state the implementation reports"""
+    read_spec(t)
+    first = r.s()
+    if first == "throw":
+        return None
+    def one():
+        st = read_state(r)
+        if r.s() != "@":
+            return "[answer] malformed show answer"
+        got = (unq(r.s()), unq(r.s()), unq(r.s()))
+        exp = shown_of(st)
+        if got != exp:
+            return f"[show] operator<< printed {got} for {st}; expected {exp}"
+        return None
+    w = one()
+    if w:
+        return w
+    while not r.done():
+        if r.s() != ";":
+            return "[answer] malformed history answer"
+        while r.s() != "/":
+            pass
+        w = one()
+        if w:
+            return w
+    return None
+
+
 def oracle_config(t, r):
     n = t.int()
     if r.s() != "ok":
@@ -533,7 +827,11 @@ def oracle_config(t, r):
         elif cop == "has":
             w = r.s(); v = r.s()
             if w != "ok" or v != ("1" if find(name) is not None else "0"):
-                return f"[lookup] parameter_if(`{name}`) answered {w} {v}"
+                return f"[lookup] parameter_if(`{name}`) answered {w} {v} (exact names only: a prefix / an extension is unknown)"
+        elif cop == "copy":
+            w = r.s(); v = r.s()
+            if w != "ok" or v != "1":
+                return f"[copy-differs] a copy of the configurable object does not have its parameters: {w} {v}"
         else:
             op, args, _ = read_op(t)
             i = find(name)
@@ -597,6 +895,17 @@ def oracle_factory(t, r):
         if len(set(ids)) != len(ids) or (n == 0):
             return "[ids] duplicated or missing ids"
         return None
+    if what == "idsre":
+        kind = t.s(); frag = unq(t.s())
+        n = r.int()
+        got = [unq(r.s()) for _ in range(n)]
+        known = [e[1] for e in _ENTRIES if e[0] == f]
+        if _ENTRIES:
+            rx = re.compile(regex_text(kind, frag))
+            exp = [i for i in known if rx.fullmatch(i)]
+            if got != exp:
+                return f"[ids] ids(`{regex_text(kind, frag)}`) of `{f}` answered {got}, the registered ids that match are {exp}"
+        return None if r.done() else "[answer] trailing tokens"
     id_ = unq(t.s())
     mask = t.int()
     if r.t[r.i:r.i + 1] == ["missing"]:
@@ -643,6 +952,122 @@ def oracle_factory(t, r):
             return f"[clone-differs] clone parameter `{nm}` does not match `{name}`"
         if not in_domain(got):
             return f"[out-of-domain] clone parameter `{name}` left its domain: {got}"
+    return None if r.done() else "[answer] trailing tokens"
+
+
+def regex_text(kind, frag):
+    return {"any": ".+", "lit": frag, "pre": frag + ".*", "suf": ".*" + frag, "sub": ".*" + frag + ".*"}[kind]
+
+
+def oracle_fact(t, r):
+    """factory_t on a factory of our own, from its documentation: add returns false for a duplicate id and changes nothing; get
+    returns null for an unknown id and otherwise a NEW object equal to the prototype (never the prototype: modifying a got
+    object changes neither what get hands out later nor any other got object); ids(regex) = the registered ids the regex
+    matches entirely, in registration order; description of an unknown id is empty"""
+    n = t.int()
+    if r.s() != "ok":
+        return "[answer] implementation did not answer ok"
+    protos = []          # [(id, default, descr)] in registration order
+    vars_ = []           # [(id, value)]
+    def find(i):
+        for p in protos:
+            if p[0] == i:
+                return p
+        return None
+    def tree(i, v):
+        return (i, [("p", {"kind": "int", "value": v, "min": 0, "max": 10, "mincomp": "le", "maxcomp": "le"})], [])
+    for _ in range(n):
+        k = t.s()
+        if r.s() != ";":
+            return "[answer] malformed history answer"
+        w = r.s()
+        if k == "add":
+            i = unq(t.s()); v = t.int(); d = unq(t.s())
+            if not 0 <= v <= 10:
+                if w != "throw":
+                    return "[ctor-missing-throw] a prototype whose default is outside its domain was constructed"
+                r.s()
+            else:
+                if w != "ok":
+                    return f"[factory-add] add(`{i}`) answered {w}"
+                flag = r.int()
+                if flag != (0 if find(i) else 1):
+                    return f"[factory-add] add(`{i}`) returned {flag} with {[p[0] for p in protos]} registered (exact ids)"
+                if not find(i):
+                    protos.append((i, v, d))
+        elif k == "has":
+            i = unq(t.s())
+            if w != "ok" or r.int() != (1 if find(i) else 0):
+                return f"[factory-has] has(`{i}`) is wrong with {[p[0] for p in protos]} registered (exact ids)"
+        elif k == "size":
+            if w != "ok" or r.int() != len(protos):
+                return f"[factory-size] size() is wrong with {len(protos)} registered"
+        elif k == "desc":
+            i = unq(t.s())
+            p = find(i)
+            if w != "ok" or unq(r.s()) != (p[2] if p else ""):
+                return f"[factory-description] description(`{i}`) is wrong"
+        elif k == "get":
+            i = unq(t.s())
+            p = find(i)
+            if p is None:
+                if w != "null":
+                    return f"[factory-get] get of the unknown id `{i}` did not return null"
+            else:
+                if w != "ok":
+                    return f"[factory-get] get(`{i}`) returned null although the id is registered"
+                got = read_tree(r)
+                if got != tree(i, p[1]):
+                    return f"[prototype-modified] get(`{i}`) handed out {got}, the prototype was registered as {tree(i, p[1])}"
+                vars_.append((i, p[1]))
+        elif k == "ids":
+            kind = t.s(); frag = unq(t.s())
+            if w != "ok":
+                return "[answer] ids answered " + w
+            got = [unq(r.s()) for _ in range(r.int())]
+            rx = re.compile(regex_text(kind, frag))
+            exp = [p[0] for p in protos if rx.fullmatch(p[0])]
+            if got != exp:
+                return f"[ids] ids(`{regex_text(kind, frag)}`) answered {got}, the registered ids that match are {exp}"
+        elif k == "setp":
+            v = t.int(); name = unq(t.s()); op, args, _ = read_op(t)
+            if name != "p":
+                if w != "throw":
+                    return f"[unknown-name] the unknown name `{name}` did not throw"
+                r.s()
+            else:
+                st = tree(*vars_[v])[1][0][1]
+                new, expect = ref_step(st, op, args)
+                if w == "throw":
+                    r.s()
+                    if expect[0] == "ok":
+                        return "[spurious-throw] an assignment inside the domain threw"
+                else:
+                    if expect[0] == "throw":
+                        return "[missing-throw] an assignment outside the domain was accepted"
+                    if new is not None:
+                        vars_[v] = (vars_[v][0], new["value"])
+        elif k == "clonev":
+            v = t.int()
+            if w != "ok" or read_tree(r) != tree(*vars_[v]):
+                return f"[clone-differs] the clone of variable {v} differs from it"
+            vars_.append(vars_[v])
+        else:
+            return "unknown factory op " + k
+        if r.s() != "/":
+            return "[answer] malformed history answer"
+        if r.int() != len(vars_):
+            return "[answer] wrong number of variables"
+        for j, (i, v) in enumerate(vars_):
+            got = read_tree(r)
+            if got != tree(i, v):
+                return f"[clone-not-independent] after `{k}` variable {j} holds {got}, the reference semantics says {tree(i, v)}"
+        if r.int() != len(protos):
+            return f"[factory-size] {len(protos)} ids are registered, the factory lists another number"
+        for (i, v, d) in protos:
+            gi = unq(r.s()); got = read_tree(r)
+            if gi != i or got != tree(i, v):
+                return f"[prototype-modified] after `{k}` get(`{i}`) hands out {got}, the prototype was registered as {tree(i, v)}"
     return None if r.done() else "[answer] trailing tokens"
 
 
@@ -920,8 +1345,12 @@ def oracle(op, res):
     if fam == "factory":
         return oracle_factory(t, r)
     t.s()
-    if fam == "param":
+    if fam in ("param", "paramx"):
         return oracle_param(t, r)
+    if fam == "paramshow":
+        return oracle_paramshow(t, r)
+    if fam == "fact":
+        return oracle_fact(t, r)
     if fam == "config":
         return oracle_config(t, r)
     if fam == "owner":
@@ -1027,7 +1456,8 @@ def alphabet_(spec):
                 f"spf {hx(mn)} {hx(ulp_next(mx))}", S("1,b"), S(".5;2"), "rpf", "wr"]
         return full, core
     if k == "enum":
-        full = [S(s) for s in ("red", "green", "blue", "dark blue", "pink", "", "Red", "redx", "dark", "dark  blue", " red")]
+        full = [S(s) for s in ("red", "green", "blue", "dark blue", "pink", "", "Red", "redx", "dark", "dark  blue", " red", "gree",
+                               "greenn", "GREEN", "re")]
         full += ["se " + q(n) for n in ENUM_NAMES] + ["si 1", "sf " + hx(0.5), "spi 1 2", "spf " + hx(0.5) + " " + hx(1.5)] + READS
         core = [S("red"), S("dark blue"), S("pink"), "se " + q("blue"), S(""), "si 0", "re", "rs", "wr"]
         return full, core
@@ -1202,7 +1632,9 @@ def assign_text(rng, name, raw, inside=True):
         return in_domain(d) == inside and (not inside or not same_state(d, st))
     if k == "enum":
         if not inside:
-            return "ss " + q("no-such-name")
+            d = rng.choice(st["domain"])
+            near = [c for c in (d[:-1], d + "x", d.upper(), " " + d, d + " ", "", "no-such-name") if c not in st["domain"]]
+            return "ss " + q(rng.choice(near))
         other = [d for d in st["domain"] if d != st["value"]]
         return "ss " + q(rng.choice(other)) if other else None
     if k == "str":
@@ -1285,6 +1717,12 @@ class OwnerHist:
             # lsearchk::tolerance / lsearch0::epsilon are overwritten by the solver at minimize(): they are assigned too, but
             # a parameter that the probe can see is preferred
             nm = name or self.rng.choice(names)
+            if name is None and self.rng.chance(0.08):
+                # a name that is NOT registered but is a prefix / an extension of a registered one: must throw, nothing changes
+                bad = self.rng.choice([nm[:-1], nm[:max(1, len(nm) // 2)], nm + "x", nm + ":", nm.upper(), ""])
+                if bad not in names:
+                    self.ops.append(f"set {v} {q(bad)} " + self.rng.choice(["si 1", "sf " + hx(0.5), "ss " + q("1")]))
+                    continue
             j = names.index(nm)
             text = assign_text(self.rng, nm, tree[1][j][1], inside)
             if text is None:
@@ -1489,7 +1927,7 @@ def random_hist(rng, entries):
             h.ext(v, rng.choice([c for (k, c) in CHILD_KIND if k == kind]))
         elif u < 0.8 and kind == "params":
             h.assign(v, rng.choice(same))
-        elif kind in ("solver", "params", "splitter"):
+        elif kind in ("solver", "params", "splitter", "lsearchk", "tuner"):
             h.probe(v, rng.choice(same))
         elif len(h.vars) < 9:
             h.new(rng.choice(["lsearchk", "lsearch0", "solver"]))
@@ -1512,10 +1950,54 @@ def lsearch0_hist(rng, entries, id_):
     return h.line()
 
 
+def enum_hist(rng, entries):
+    """an object with an enumeration parameter: a rejected (near-miss) name, then reads through clones, an accepted name, clones"""
+    h = OwnerHist(rng, entries)
+    cands = [(e[0], e[1], n) for e in entries if e[0] in ("wlearner", "tuner", "splitter", "solver", "lsearchk", "lsearch0")
+             for n, raw in e[3] if raw["kind"] == "enum"]
+    if not cands:
+        return None
+    kind, id_, name = rng.choice(cands)
+    v = h.new(kind, id_)
+    h.set(v, 1, inside=False, name=name)
+    c = h.clone(v)
+    h.set(c, 1, inside=True, name=name)
+    h.set(c, 1, inside=False, name=name)
+    h.clone(c)
+    h.set(v, 1, inside=rng.chance(0.5), name=name)
+    h.clone(v)
+    return h.line()
+
+
+def probe_hist(rng, entries, kind, id_):
+    """line-search / tuner / weak learner: configure, clone, probe (a weak learner is FITTED by the probe), clone the used object,
+    probe again, change the clone, clone the clone"""
+    h = OwnerHist(rng, entries)
+    v = h.configured(kind, id_) if rng.chance(0.6) else h.new(kind, id_)
+    c = h.clone(v)
+    h.probe(v, c)
+    c2 = h.clone(v)
+    h.probe(v, c2)
+    h.set(c2, 1)
+    c3 = h.clone(c2)
+    h.probe(c2, c3)
+    if rng.chance(0.5):
+        h.probe(v, c)
+    return h.line()
+
+
 def owner_ops(rng, entries, thorough):
     if not entries or not getattr(entries, "owners", None):
         return []
     ops = []
+    for e in entries:
+        if e[0] in ("lsearchk", "tuner", "wlearner"):
+            for _ in range(3 if thorough else 1):
+                ops.append(probe_hist(rng, entries, e[0], e[1]))
+    for _ in range(60 if thorough else 12):
+        line = enum_hist(rng, entries)
+        if line:
+            ops.append(line)
     for e in entries:
         if e[0] == "lsearch0":
             for _ in range(4 if thorough else 2):
@@ -1534,21 +2016,42 @@ def owner_ops(rng, entries, thorough):
     return ops
 
 
+def prefix_closed(bases, extra="c: "):
+    """every prefix of every base name (the empty name included) and every base name extended by one character"""
+    out = []
+    for b in bases:
+        for i in range(len(b) + 1):
+            if b[:i] not in out:
+                out.append(b[:i])
+        for ch in extra:
+            if b + ch not in out:
+                out.append(b + ch)
+    return out
+
+
+CONFIG_NAMES = prefix_closed(["ab", "s::e", "A"]) + ["a b", "b"]
+
+
 def config_ops(rng, count):
-    names = ["a", "b", "solver::epsilon", "a b", "", "A"]
+    names = CONFIG_NAMES
     specs = [s for s in main_specs() if s.kind != "mono"] + [Spec("int", min=0, mincomp="le", value=11, maxcomp="le", max=10)]
     vals_i = [-3, -2, 0, 1, 5, 6]
     vals_f = [-1.0, 0.5, 2.5, 2.6, 1e300]
     out = []
     for _ in range(count):
-        n = rng.range(1, 10)
+        n = rng.range(1, 14)
         cops = []
+        # the names of one history come from ONE chain of prefixes / extensions most of the time, so that a lookup of a
+        # prefix of a registered name (and the registration of a prefix) is the usual case
+        pool = names if rng.chance(0.3) else [x for x in names if x.startswith(rng.choice(["a", "s", ""])) or x == ""]
         for _ in range(n):
             u = rng.unit()
-            name = rng.choice(names)
+            name = rng.choice(pool)
             if u < 0.35:
                 cops.append(f"reg {q(name)} {rng.choice(specs).wire()}")
-            elif u < 0.45:
+            elif u < 0.40:
+                cops.append(f"copy {q('')}")
+            elif u < 0.50:
                 cops.append(f"has {q(name)}")
             elif u < 0.75:
                 sp = rng.choice(specs)
@@ -1567,6 +2070,151 @@ def config_ops(rng, count):
                 else:
                     cops.append(f"cfg {q(name)} ss {q(rng.choice(['1', '0.5', 'red', 'x', '1,2', '']))}")
         out.append(f"config hist {n} " + " ".join(cops))
+    return out
+
+
+XOPS_INT = ["ri32", "ru64", "rf32", "ri", "rf", "sb 0", "sb 1", "si32 -5", "si32 7", "si32 2147483647", "si32 -2147483648",
+            "su64 0", "su64 3", "su64 9223372036854775807", "su64 9223372036854775808", "su64 18446744073709551615",
+            "su64 18446744073709551611", "sf32 " + f2h(2.5), "sf32 " + f2h(-0.0), "sf32 " + f2h(16777216.0), "sf32 " + f2h(float("inf")),
+            "sf32 nan", "rpi32", "rpf32", "wr"]
+
+
+def num_wire(rng, v, prefer_float):
+    if isinstance(v, float) or prefer_float:
+        return "f " + hx(float(v))
+    return f"i {v}"
+
+
+def paramx_specs(rng):
+    """parameters whose domains exceed the narrow types, and the converting factory functions with mixed argument types"""
+    big = [2 ** 31 - 1, 2 ** 31, 2 ** 31 + 1, -2 ** 31, -2 ** 31 - 1, 2 ** 32, 2 ** 32 + 5, 16777217, 2 ** 53 + 1, 2 ** 62, -7, 0, 3]
+    specs = []
+    for v in big:
+        specs.append(Spec("int", min=min(-10, v), mincomp="le", value=v, maxcomp="le", max=max(2 ** 63 - 1, v)))
+    specs.append(Spec("int", min=-5, mincomp="le", value=1, maxcomp="lt", max=6))
+    for v in (0.5, 1.5, -1.5, 2147483647.5, 2147483648.0, -2147483648.9, -2147483649.0, 1e10, 16777217.0, 3.4028235677973366e38,
+              3.5e38, 1e-46, 0.1, -0.0):
+        specs.append(Spec("float", min=-1e300, mincomp="le", value=v, maxcomp="le", max=1e300))
+    specs.append(Spec("ipair", min=-2 ** 40, mincomp="le", value1=-2 ** 31 - 1, valcomp="lt", value2=2 ** 31, maxcomp="le", max=2 ** 40))
+    specs.append(Spec("ipair", min=0, mincomp="le", value1=1, valcomp="lt", value2=16777217, maxcomp="le", max=2 ** 40))
+    specs.append(Spec("fpair", min=-1e300, mincomp="le", value1=-2147483648.5, valcomp="lt", value2=2147483647.9, maxcomp="le", max=1e300))
+    specs.append(Spec("fpair", min=-1e300, mincomp="le", value1=0.1, valcomp="lt", value2=1e39, maxcomp="le", max=1e300))
+    specs += [Spec("enum", value="green"), Spec("str", value="abc"), Spec("mono")]
+    return specs
+
+
+def xspec_wire(rng):
+    """make_integer / make_scalar / make_*_pair called with a mix of integral and floating point arguments"""
+    kind = rng.choice(["xint", "xint", "xfloat", "xipair", "xfpair"])
+    fl = lambda: rng.chance(0.5)
+    cands = [0, 1, 2, 3, 5, 10, -1, -3, 0.5, 1.7, 2.5, -0.5, -1.5, 9.99, 10.9, 0.9, 0.999, -0.0, 1e3, 7]
+    def pick():
+        v = rng.choice(cands)
+        return num_wire(rng, v, False)
+    c = lambda: rng.choice(["le", "lt"])
+    if kind in ("xint", "xfloat"):
+        return f"{kind} {pick()} {c()} {pick()} {c()} {pick()}"
+    return f"{kind} {pick()} {c()} {pick()} {c()} {pick()} {c()} {pick()}"
+
+
+def paramx_ops(rng, count):
+    out = []
+    specs = paramx_specs(rng)
+    others = [sp.wire() for sp in main_specs()[:6]] + ["int 0 le 1 le 10", "float " + hx(-0.0) + " le " + hx(0.0) + " le " + hx(1.0),
+                                                       "float " + hx(0.0) + " le " + hx(-0.0) + " le " + hx(1.0)]
+    for sp in specs:
+        out.append(f"paramx hist {sp.wire()} {len(XOPS_INT)} " + " ".join(XOPS_INT))
+        # (a default constructed parameter has no name: `eq 0` is not meaningful for it)
+        out.append(f"paramx hist {sp.wire()} 3 eq 1 {sp.wire()} eq {1 if sp.kind == 'mono' else 0} {sp.wire()} eq 1 {rng.choice(others)}")
+    for _ in range(count):
+        w = xspec_wire(rng) if rng.chance(0.6) else rng.choice(specs).wire()
+        try:
+            sp = read_spec(Toks(w))
+        except ValueError:
+            continue
+        full, _ = alphabet_for(sp) if sp.kind not in ("int", "float", "ipair", "fpair") or tame(sp) else (XOPS_INT, None)
+        n = rng.range(3, 10)
+        ops = []
+        for _ in range(n):
+            u = rng.unit()
+            if u < 0.45:
+                ops.append(rng.choice(XOPS_INT))
+            elif u < 0.6:
+                ow = w if rng.chance(0.5) else (xspec_wire(rng) if rng.chance(0.5) else rng.choice(others))
+                ops.append(f"eq {1 if ow == 'mono' else rng.below(2)} " + ow)
+            else:
+                ops.append(random_op(rng, sp, full) if tame(sp) else rng.choice(full))
+        out.append(f"paramx hist {w} {len(ops)} " + " ".join(ops))
+    return out
+
+
+FACT_IDS = prefix_closed(["gd", "cgd-n"], "x-") + ["lbfgs", "n"]
+FACT_FRAGS = ["", "g", "gd", "cgd", "cgd-", "d", "n", "-n", "x", "gdx", "lbfgs", "c"]
+
+
+def fact_ops(rng, count):
+    out = []
+    for _ in range(count):
+        n = rng.range(3, 14)
+        fops, nvars = [], 0
+        live = []            # ids the reference semantics knows to be registered
+        for _ in range(n):
+            u = rng.unit()
+            i = rng.choice(FACT_IDS)
+            if u < 0.3:
+                v = rng.choice([0, 1, 3, 5, 10, 10, 11, -1])
+                fops.append(f"add {q(i)} {v} {q(rng.choice(['', 'a description', i + '?']))}")
+                if 0 <= v <= 10 and i not in live:
+                    live.append(i)
+            elif u < 0.4:
+                fops.append(f"has {q(i)}")
+            elif u < 0.45:
+                fops.append("size")
+            elif u < 0.52:
+                fops.append(f"desc {q(i)}")
+            elif u < 0.7:
+                i = rng.choice(live) if live and rng.chance(0.7) else i
+                fops.append(f"get {q(i)}")
+                if i in live:
+                    nvars += 1
+            elif u < 0.8:
+                fops.append(f"ids {rng.choice(['any', 'lit', 'pre', 'suf', 'sub'])} {q(rng.choice(FACT_FRAGS))}")
+            elif u < 0.95 and nvars:
+                name = "p" if rng.chance(0.85) else rng.choice(["", "pp", "q"])
+                fops.append(f"setp {rng.below(nvars)} {q(name)} " + rng.choice(["si 0", "si 7", "si 10", "si 11", "si -1", "sf " + hx(2.5),
+                                                                                  "ss " + q("4"), "ss " + q("x")]))
+            elif nvars:
+                fops.append(f"clonev {rng.below(nvars)}")
+                nvars += 1
+            else:
+                fops.append("size")
+        out.append(f"fact hist {len(fops)} " + " ".join(fops))
+    return out
+
+
+def idsre_ops(rng, entries):
+    out = []
+    for f in T.FACTORIES:
+        ids = [e[1] for e in entries if e[0] == f]
+        frags = {""}
+        for i in ids[:40]:
+            if re.fullmatch(r"[a-z0-9-]+", i):
+                frags.update({i, i[:1], i[:max(1, len(i) // 2)], i[-2:], i[1:3]})
+        frags = sorted(frags)
+        for _ in range(6):
+            out.append(f"factory idsre {f} {rng.choice(['lit', 'pre', 'suf', 'sub', 'any'])} {q(rng.choice(frags))}")
+    return out
+
+
+def paramshow_ops(rng, count):
+    """oracle-only monitor of the printed texts: random histories over the main and the edge specs"""
+    out = []
+    specs = main_specs() + extra_specs(rng)
+    for _ in range(count):
+        spec = rng.choice(specs)
+        full, _ = alphabet_for(spec)
+        ops = [random_op(rng, spec, full) for _ in range(rng.range(1, 6))]
+        out.append(hist(spec, ops).replace("param hist", "paramshow hist", 1))
     return out
 
 
@@ -1616,6 +2264,10 @@ def gen(rng, tier):
         n = rng.range(5, 30 if thorough else 12)
         ops.append(hist(spec, [random_op(rng, spec, full) for _ in range(n)]))
     ops += config_ops(rng, 20000 if thorough else 3000)
+    ops += paramx_ops(rng, 8000 if thorough else 1500)
+    ops += fact_ops(rng, 6000 if thorough else 800)
+    ops += idsre_ops(rng, entries)
+    ops += paramshow_ops(rng, 3000 if thorough else 400)
     # distinct by text, order kept
     seen, out = set(), []
     for o in ops:
@@ -1631,6 +2283,10 @@ def nontrivial(op):
         return what == "walk"
     if fam == "config":
         return " reg " in op and (" get " in op or " cfg " in op)
+    if fam == "fact":
+        return " add " in op and " get " in op
+    if fam == "paramshow":
+        return True
     if fam == "owner":
         # a copy is taken of an owner whose owned objects / own parameters were configured before
         toks = op.split()
@@ -1641,7 +2297,10 @@ def nontrivial(op):
     n = t.int()
     acc = rej = False
     for _ in range(n):
-        _, _, raw = read_op(t)
+        k, _, raw = read_op(t)
+        if fam == "paramx" and k in ("ri32", "ru64", "rf32", "rpi32", "rpf32", "eq"):
+            acc = rej = True          # a narrowing read / a comparison is what the family is about
+            continue
         a = accepts(spec, " ".join(raw))
         acc = acc or a is True
         rej = rej or a is False
@@ -1652,9 +2311,11 @@ def distribution(ops):
     d = {}
     for op in ops:
         t = op.split()
-        if t[0] == "param":
+        if t[0] in ("param", "paramx", "paramshow"):
             n = Toks(op); n.s(); n.s(); read_spec(n); k = n.int()
-            key = f"param/{t[2]}/len{k if k <= 6 else '7+'}"
+            key = f"{t[0]}/{t[2]}/len{k if k <= 6 else '7+'}"
+        elif t[0] == "fact":
+            key = "fact/len" + (t[2] if int(t[2]) <= 6 else "7+")
         elif t[0] == "config":
             key = "config/len" + (t[2] if int(t[2]) <= 6 else "7+")
         elif t[0] == "owner":
@@ -1681,19 +2342,19 @@ def classify(op, kind, detail):
 
 
 def model_skip(aug):
-    return aug.startswith("factory dump")
+    return aug.startswith("factory dump") or aug.startswith("paramshow ")
 
 
 def shrink_candidates(op):
     """drop operations of a history one at a time (later ones first)"""
     t = Toks(op)
     fam = t.s(); what = t.s()
-    if fam == "param":
+    if fam in ("param", "paramx", "paramshow"):
         spec = read_spec(t)
         n = t.int()
         raws = [" ".join(read_op(t)[2]) for _ in range(n)]
         for i in reversed(range(n)):
-            yield hist(spec, raws[:i] + raws[i + 1:])
+            yield hist(spec, raws[:i] + raws[i + 1:]).replace("param hist", fam + " hist", 1)
     elif fam == "config":
         n = t.int()
         cops = []
@@ -1710,6 +2371,22 @@ def shrink_candidates(op):
             yield f"config hist {len(rest)} " + " ".join(rest) if rest else "config hist 0"
     elif fam == "factory" and what == "walk" and " probe " in op:
         yield op[:op.rfind(" probe ")]
+    elif fam == "fact":
+        # operations are dropped from the end (variables are numbered in order of creation, so a prefix is well formed)
+        n = t.int()
+        fops = []
+        arity = {"add": 3, "has": 1, "size": 0, "desc": 1, "get": 1, "ids": 2, "clonev": 1}
+        for _ in range(n):
+            start = t.i
+            k = t.s()
+            if k == "setp":
+                t.int(); t.s(); read_op(t)
+            else:
+                for _ in range(arity[k]):
+                    t.s()
+            fops.append(" ".join(t.t[start:t.i]))
+        for i in reversed(range(1, n)):
+            yield f"fact hist {i} " + " ".join(fops[:i])
     elif fam == "owner":
         n = t.int()
         oops = [read_oop(t) for _ in range(n)]
